@@ -2,7 +2,7 @@ From Coq Require Import Extraction ExtrOcamlBasic.
 From GM Require Import Base.Topic Model.WsConn Model.SubTrie Model.SubSpec Model.TopicMatch Base.Msg Model.RetTrie Oracle.C18O Oracle.C02O Oracle.C07O Model.Queue Oracle.C10O Model.Limiter Oracle.C03O Model.Broker
   Model.CodecBase Model.CodecProps Model.CodecPackets Model.CodecSpec Oracle.C06O
   Model.Redis Model.RQueue Model.Crash Oracle.C09O Model.Auth Oracle.C19O
-  Model.FedQueue Oracle.C16O Model.FedRoute Oracle.C17O.
+  Model.FedQueue Oracle.C16O Model.FedRoute Oracle.C17O Model.Stats Oracle.C20O.
 Extraction Language OCaml.
 Set Extraction KeepSingleton.
 Extraction "model.ml"
@@ -23,9 +23,9 @@ Extraction "model.ml"
   C06O.kf_varint_noncanonical C06O.kf_proplen_omitted C06O.kf_alloc_upfront
   C06O.kf_ack_flags C06O.kf_trailing C06O.kf_prop_len_overrun C06O.kf_retain_handling_3 C06O.kf_nolocal_shared
   C06O.kf_pid_zero C06O.kf_name_empty C06O.kf_connect_props_will C06O.kf_auth_v3
-  C06O.kf_v3_password_without_username C06O.kf_unsub_share_syntax C06O.kf_topic_fffd
-  C06O.c06_encode_ok C06O.kf_enc_topic_fffd C06O.step_ok
-  C06O.model_topic_obs C06O.topic_obs_eqb C06O.c06_topic_ok C06O.kf_t_name_empty C06O.kf_t_fffd C06O.kf_t_nul
+  C06O.kf_v3_password_without_username C06O.kf_unsub_share_syntax
+  C06O.c06_encode_ok C06O.step_ok
+  C06O.model_topic_obs C06O.topic_obs_eqb C06O.c06_topic_ok C06O.kf_t_name_empty C06O.kf_t_nul
   C06O.c06_msg_ok C06O.model_msg_obs C06O.spec_reason
   Redis.exec_all Redis.blob_eqb RQueue.rq_model RQueue.abstract_ops
   Crash.cur_code Crash.all_fixed Crash.code_fixes Crash.sops_cmds Crash.sops_flat Crash.ru_run Crash.jcmds Crash.trim_left
@@ -37,4 +37,7 @@ Extraction "model.ml"
   FedQueue.fq_init FedQueue.fq_step FedQueue.view_of FedQueue.local_of FedQueue.fq_idle FedQueue.msg_event_form FedQueue.plain_sub
   RetTrie.rdb_all FedRoute.fr_init FedRoute.fr_run FedRoute.fr_receive_all
   C17O.c17_pub_ok C17O.plain_ok C17O.shared_ok C17O.retained_ok C17O.c17_recv_ok C17O.kf_shared_span C17O.pub_obs_of
-  C16O.c16_ok C16O.c16_safety_ok C16O.fq_model_obs C16O.kf_hello_reply_lost C16O.kf_event_not_utf8.
+  C16O.c16_ok C16O.c16_safety_ok C16O.fq_model_obs C16O.kf_hello_reply_lost C16O.kf_event_not_utf8
+  Stats.sts_run Stats.sts_view_of Stats.sts_all_ctrs Stats.sts_all_cctrs Stats.sts_get Stats.sts_M64
+  C20O.c20_truth C20O.c20_model C20O.c20_calls C20O.c20_ok C20O.c20_class C20O.c20_vec_diff C20O.c20_cvec_diff
+  C20O.c20_signed C20O.c20_gauges_wrapped C20O.c20_obs_ctrs.
